@@ -24,6 +24,18 @@ ASSUMPTIONS = ["np.random.shuffle produces a permutation (the model takes the pe
 TRUSTED = ["aabb_tree.py is modelled in full (class bookkeeping, insert_leaf, fix_upward_tree, both query loops, "
            "all_aabbs_overlap, aabb_overlap, _merge_aabb, _aabb_volume); print_aabb_tree_recursive is not modelled"]
 
+MANIFEST = dict(
+    text=("Lean theorems query_exact / query_tree_exact / empty_query_ok hold for every array state accepted by the "
+          "decidable wfCheck (proved sound), history_leaves for every insertion history on the tree layer; the "
+          "array model of aabb_tree.py is compared exactly (full arrays after every op) with the implementation and "
+          "wfCheck is executed in Lean on the implementation's arrays after every operation; brute-force oracle on "
+          "the real code."),
+    note=("trusted: Lean kernel + Mathlib, axioms propext/Classical.choice/Quot.sound; exact-real semantics of box "
+          "coordinates (only min/max/<=/-/* are used; min/max/<= are exact in floats); insertLeaf_refines is checked at "
+          "run time, not proved; correspondence harness (sampling + corpus)."),
+    technique="Lean 4 proof on hand-written model + correspondence (exact state equality, Lean-run wfCheck on impl arrays)",
+    design="§7 C05")
+
 MODES = ["none", "sort", "shuffle"]
 
 
